@@ -77,7 +77,8 @@ def excludes_byte_edges(q, byte):
         if t[0] != 'sym':
             return False
         names = [VAL[s] for s in values.subs(ev['val'])]
-        firstish = any(n[0] == 'sym' and n[1] == 'app' and n[2] in ('core::slice::first', 'core::slice::get', 'core::str::bytes', 'core::str::chars', 'core::str::starts_with', 'core::slice::starts_with') for n in names)
+        firstish = any(n[0] == 'sym' and n[1] == 'app' and n[2] in ('core::slice::first', 'core::slice::get', 'core::str::bytes', 'core::str::chars', 'core::str::starts_with', 'core::slice::starts_with') for n in names) \
+            or any(n[0] == 'sym' and n[1] == 'fld' and n[3] in ('idx', 'opaque') for n in names)      # `[b'.', ..]` slice pattern: element 0 of the name's bytes
         if not firstish:
             return False
         if t[1] == 'app' and t[2] in ('core::str::starts_with', 'core::slice::starts_with'):
@@ -103,6 +104,20 @@ def excludes_empty_edges(q):
             t = VAL[ev['val']]
             if t[0] == 'sym' and t[1] == 'app' and t[2] in ('core::str::is_empty', 'core::slice::is_empty'):
                 return ev.get('eq') == 0
+            # a test on the length of the name / its bytes (slice patterns, `len() == 0`, `len() >= 1`)
+            if t[0] == 'sym' and t[1] == 'cmp' and 'eq' in ev:
+                op, a, b = t[2], VAL[t[3]], VAL[t[4]]
+                is_len = lambda x: x[0] == 'sym' and ((x[1] == 'un' and x[2] == 'len') or (x[1] == 'app' and x[2].rsplit('::', 1)[-1] == 'len'))
+                if is_len(a) and b[0] == 'int':
+                    k = int(b[1])
+                    truth = bool(ev['eq'])
+                    nonempty = {('Eq', 0): not truth, ('Ne', 0): truth, ('Ge', 1): truth, ('Gt', 0): truth, ('Lt', 1): not truth, ('Le', 0): not truth}.get((op, k))
+                    return bool(nonempty)
+            if t[0] == 'sym' and ((t[1] == 'un' and t[2] == 'len') or (t[1] == 'app' and t[2].rsplit('::', 1)[-1] == 'len')):
+                if 'ne' in ev:
+                    return 0 in ev['ne']
+                if 'eq' in ev:
+                    return ev['eq'] >= 1
         return False
     return q.edges(pred)
 
